@@ -95,6 +95,9 @@ DIRECTED_DSDL = {
         "reg/Y.1.0.dsdl": "reg.X.1.0 first\nreg.X.1.0[<=2] xs\nuint8 z\n@sealed\n",
         "reg/Flags.1.0.dsdl": "uint8 head\nbool[<=200] flags\n@sealed\n",
         "reg/Bits.1.0.dsdl": "uint3[<=70] trits\nreg.Flags.1.0[<=2] fl\nbool[<=64] tail\n@sealed\n",
+        "reg/Edge.1.0.dsdl": "uint8[<=200] a\n@sealed\n",
+        "reg/Edge2.1.0.dsdl": "uint8[<=128] c\nuint16[<=254] d\n@sealed\n",
+        "reg/Edge3.1.0.dsdl": "int8[<=255] e\nuint8[<=256] f\nbool[<=130] g\n@sealed\n",
         "reg/W.1.0.dsdl": "@union\nuint8 prim\nuint8[<=4] arr\nreg.sub.Inner.1.0 comp\nuint16 prim2\nreg.sub.Inner.1.0[<=3] comps\n@sealed\n",
     },
 }
